@@ -49,7 +49,10 @@ def parse_smtlib(text: str):  # noqa: C901
                         pos += 1
                         continue
                     break
-            cur_expr.append(Node(''.join(literal)))
+            if cur_expr is not None:
+                cur_expr.append(Node(''.join(literal)))
+            else:
+                yield Node(''.join(literal))
 
         # Comments
         elif char == ';':
